@@ -224,7 +224,7 @@ func runC09(r *core.Run) {
 		"(1-byte reads, fixed sizes, random chunk lists, zero-length read runs 1..99, a boundary at every line end +/- 2, EOF with the last data) is compared with the single-Read result; " +
 		"plus ALL 2^(n-1) chunkings of short inputs. distinct = hash(input, schedule name); non-trivial = schedule differs from a single Read")
 	r.Assume("a Reader never returns more than len(p) and returns its error sticky; zero-length read runs stay below the documented retry bound of 100")
-	n := r.N(600, 4000)
+	n := r.N(600, 16000)
 	core.Parallel(n, workers(), func(i int) {
 		in := c09Inputs(r, i)
 		if len(in) == 0 {
